@@ -108,4 +108,34 @@ def handleValHdr (args : List String) : String :=
     | (.error t, st) => s!"err {tagStr t} fnd={showTags st.fnd}"
   | _ => "bad-args"
 
+def withLevels (o : Opts) (s p u b : Nat) : Opts :=
+  { o with syn := Pol.ofCode s, spec := Pol.ofCode p, unk := Pol.ofCode u, blk := Pol.ofCode b }
+
+/-- summary of a run under the three uniform levels and the error bit under all 81 combinations -/
+def xpolSummary (run : Opts → Option Tag × List Tag) (base : Opts) : String :=
+  let uni := [0, 1, 2].map (fun l =>
+    let r := run (withLevels base l l l l)
+    s!"L{l}={match r.1 with | some t => tagStr t | none => "-"}/{showTags r.2}")
+  let bits := (List.range 81).map (fun i =>
+    let r := run (withLevels base (i / 27) ((i / 9) % 3) ((i / 3) % 3) (i % 3))
+    if r.1.isSome then '1' else '0')
+  joinWith " " uni ++ " E=" ++ String.ofList bits
+
+def handleXpol (args : List String) : String :=
+  match args with
+  | o :: fault :: d :: orc :: _ =>
+    let Ω := parseOracles orc
+    xpolSummary (fun o' => let r := unmarshal realH o' Ω ⟨hx d, parseBool fault⟩; (r.err, r.fnd)) (parseOpts o)
+  | _ => "bad-args"
+
+def handleXpolBuild (args : List String) : String :=
+  match args with
+  | o :: ver :: rt0 :: hdr :: content :: id :: orc :: _ =>
+    let verId := if ver == "1.0" then 1 else 2
+    let Ω := parseOracles orc
+    xpolSummary (fun o' =>
+      let r := build realH o' Ω ver.toUTF8.toList verId (parseNat rt0) (builderHeader (parseNat rt0) (parseFieldsArg hdr)) (hx content) (hx id)
+      (r.err, r.fnd)) (parseOpts o)
+  | _ => "bad-args"
+
 end Gowarc.Driver
